@@ -262,6 +262,39 @@ func runC08(cs *vrt.Case) {
 	case cs.Idx%8 == 7:
 		c08CLI(cs, r)
 		return
+	case cs.Idx%8 == 3:
+		// constants wider than a machine word folded at compile time. The
+		// same constants (same bit lengths, same operator) in programs of
+		// OTHER result types are compiled first in this process, each with
+		// its own Params and Compiler: whatever the folding machinery keeps
+		// per process must not reach this program's circuit, which the
+		// separate processes below compile as their first and only program.
+		la := vrt.Pick(r, []int{65, 70, 100, 131})
+		lb := la
+		if r.Bool() {
+			lb = vrt.Pick(r, []int{65, 70, 100, 131})
+		}
+		op := vrt.Pick(r, []string{"+", "-", "*"})
+		a, b := r.Big(la), r.Big(lb)
+		a.SetBit(a, la-1, 1)
+		b.SetBit(b, lb-1, 1)
+		mk := func(w int) string {
+			return fmt.Sprintf("package main\n\nconst a uint%d = 0x%s\nconst b uint%d = 0x%s\n\nfunc main(x, y uint%d) uint%d {\n\treturn x + y + (a %s b)\n}\n", w, a.Text(16), w, b.Text(16), w, w, op)
+		}
+		// this program's type holds the exact result; the siblings' types are
+		// narrower (their result wraps) or wider
+		m := max(la, lb)
+		ws := []int{vrt.Pick(r, []int{la + lb + 1, 2*m + 3, m + 50}), m, m + 1, vrt.Pick(r, []int{m + 2, 2 * m, 3 * m})}
+		for k, w := range ws[1:] {
+			if k > 0 && r.Intn(3) == 0 {
+				continue
+			}
+			src := mk(w)
+			vrt.Guard(func() { c08Compile(nil, c08Params(r.Intn(4)), src, nil) })
+			cs.Count("sibling_programs_with_the_same_wide_constants_compiled_first", 1)
+		}
+		p = c08Program{name: "wide-constants", src: mk(ws[0])}
+		variant = r.Intn(4)
 	default:
 		g := mpclgen.Generate(r, mpclgen.Config{Arrays: true, Structs: true, Funcs: true, Loops: true, Division: true, Mult: true, NoConst: true})
 		p = c08Program{name: "generated", src: g.Src}
